@@ -201,3 +201,209 @@ def c09():
 
 
 CHECKS = {"C09": c09}
+
+
+# ----------------------------------------------------------------------------- C18
+CLI_MODEL_CFG = """SPECIFICATION Spec
+CONSTANTS
+  Mode = "model"
+  Allowed = {"K3"}
+INVARIANTS ExitZeroIff NoRunUnlessChecked NoOutputOnFailure NoExecuteNeverRuns OneDiagnostic PanicOnlyK3
+PROPERTIES Terminates
+CHECK_DEADLOCK FALSE
+"""
+CLI_CONF_CFG = """SPECIFICATION Spec
+CONSTANTS
+  Mode = "conform"
+  Allowed = {"K3"}
+INVARIANTS ObservationOK ExitZeroIff NoRunUnlessChecked NoOutputOnFailure NoExecuteNeverRuns OneDiagnostic PanicOnlyK3
+CHECK_DEADLOCK FALSE
+"""
+
+CLI_PROGS = {
+    "unparseable": ["prc[a : 1 = close\n", "type A = \n", "prc[a] : 1 = close self @\n", "let f( = 1\n", ""],
+    "illtyped_stuck": ["prc[a] : 1 = print hi; wait b; close self\nprc[b] : 1 -* 1 = <x,y> <- recv self; close self\n",
+                       "prc[a] : 1 = print q; wait b; close self\nprc[b] : &{l : 1} = case self ( l<z> => close z )\n"],
+    "illtyped_panics": ["prc[a] : 1 = wait b; print x; close self\nprc[b] : 1 = c : 1 <- new close self; d : 1 <- new close self; send self<c, d>\n",
+                        "prc[a] : 1 = <x, y> <- recv b; print x; close self\nprc[b] : 1 = close self\n"],
+    "welltyped_silent": ["prc[a] : 1 = close self\n", "prc[a] : 1 = wait b; close self\nprc[b] : 1 = close self\n",
+                         "type A = 1\nlet f() : A = close self\n"],
+    "welltyped_prints": ["prc[a] : 1 = print hi; close self\n", "prc[a] : 1 = wait b; print ok; close self\nprc[b] : 1 = print first; close self\n",
+                         "let f(x : lin 1) : lin 1 = wait x; print done; close self\nprc[a] : lin 1 = y : lin 1 <- new close self; f(y)\n"],
+}
+
+
+def _cli_args(cfg, path, rng):
+    d = lambda: rng.choice(["-", "--"])
+    a = []
+    if cfg["tc"] == "true":
+        a.append(d() + rng.choice(["typecheck", "typecheck=true"]))
+    elif cfg["tc"] == "false":
+        a.append(d() + "typecheck=false")
+    if cfg["ntc"]:
+        a.append(d() + "notypecheck")
+    if cfg["ex"] == "true":
+        a.append(d() + rng.choice(["execute", "execute=true"]))
+    elif cfg["ex"] == "false":
+        a.append(d() + "execute=false")
+    if cfg["nex"]:
+        a.append(d() + "noexecute")
+    if cfg["sync"]:
+        a.append(d() + "sync")
+    if cfg["async"] == "false":
+        a.append(d() + "async=false")
+    if cfg["verb"] != 1 or rng.random() < 0.2:
+        a += [d() + "verbosity", str(cfg["verb"])]
+    rng.shuffle(a)
+    # --verbosity N must stay adjacent
+    flat, i = [], 0
+    toks = list(a)
+    while i < len(toks):
+        flat.append(toks[i]); i += 1
+    # re-attach values that were separated by the shuffle
+    fixed, k = [], 0
+    vals = [t for t in flat if t.isdigit()]
+    for t in flat:
+        if t.isdigit():
+            continue
+        fixed.append(t)
+        if t.lstrip("-") == "verbosity":
+            fixed.append(vals.pop(0))
+    if cfg["nargs"] >= 1:
+        fixed.append(path)
+    if cfg["nargs"] == 2:
+        fixed.append(rng.choice(["extra", "--noexecute", path]))
+    return fixed
+
+
+def c18():
+    import subprocess, concurrent.futures, itertools
+    t0 = time.time()
+    v = vlib.Verdict("C18")
+    vlib.build(("grits",))
+    tier, seed = vlib.tier(), vlib.seed()
+    rng = random.Random(seed * 31 + 5)
+    with vlib.Work("c18") as work:
+        m = vlib.tlc("Cli", CLI_MODEL_CFG, workers=8, timeout=600, work=work, env={"VERIF_TRACES": "/dev/null"})
+        if not m["ok"]:
+            v.harness_errors.append("Cli.tla (model mode) violates its own properties: %s" % (m["violated"] or m["error_text"]))
+        # program files
+        files = {}
+        for cls, texts in CLI_PROGS.items():
+            for i, t in enumerate(texts):
+                p = work.path("%s_%d.grits" % (cls, i))
+                open(p, "w").write(t)
+                files.setdefault(cls, []).append(p)
+        files["missing"] = [work.path("does_not_exist.grits")]
+        if tier == "thorough":
+            import gen
+            progs, _ = gen.generate("quick", seed, work)
+            for i, p in enumerate(progs[:200]):
+                cls = "illtyped_any" if p["mut"] else "welltyped_prints"
+                fp = work.path("gen_%d.grits" % i)
+                open(fp, "w").write(p["text"])
+                files.setdefault(cls, []).append(fp)
+        # configurations: every switch combination on a default verbosity, plus seeded extras
+        cfgs = []
+        base = list(itertools.product(["default", "true", "false"], [False, True], ["default", "true", "false"], [False, True],
+                                      [False, True], ["default", "false"]))
+        classes = sorted(files)
+        n = 320 if tier == "quick" else 4000
+        for k in range(n):
+            tc, ntc, ex, nex, sy, asy = base[k % len(base)] if k < 2 * len(base) else rng.choice(base)
+            cls = classes[(k // 3) % len(classes)] if k < 2 * len(base) else rng.choice(classes)
+            cfgs.append({"tc": tc, "ntc": ntc, "ex": ex, "nex": nex, "sync": sy, "async": asy,
+                         "verb": rng.choice([1, 1, 1, 2, 3, 0, 4]), "nargs": rng.choice([1, 1, 1, 1, 1, 1, 0, 2]), "class": cls})
+        binary = os.path.join(vlib.BUILD, "grits")
+
+        def run(cfg):
+            r = random.Random(json.dumps(cfg, sort_keys=True) + str(seed))
+            path = r.choice(files[cfg["class"]])
+            args = _cli_args(cfg, path, r)
+            try:
+                p = subprocess.run([binary] + args, stdout=subprocess.PIPE, stderr=subprocess.PIPE, timeout=60, cwd=work.dir)
+                out, err, rc = p.stdout.decode("utf-8", "replace"), p.stderr.decode("utf-8", "replace"), p.returncode
+            except subprocess.TimeoutExpired:
+                return {"cfg": cfg, "args": args, "hang": True}
+            out = re.sub(r"\x1b\[[0-9;]*m", "", out)   # colour codes of the log lines
+            return {"cfg": cfg, "args": args, "file": os.path.basename(path), "exit": rc,
+                    "prints": any(l.startswith("> ") for l in out.splitlines()),
+                    "spawned": any(re.match(r"Spawning \d+ process", l) for l in out.splitlines()),
+                    "diag": sum(1 for l in err.splitlines() if re.match(r"\d{4}/\d\d/\d\d \d\d:\d\d:\d\d ", l)),
+                    "panic": ("goroutine " in err and ("panic:" in err or "fatal error:" in err)),
+                    "stderr": err[:600], "stdout_head": out[:300]}
+
+        with concurrent.futures.ThreadPoolExecutor(max_workers=vlib.NCPU) as ex:
+            obs = list(ex.map(run, cfgs))
+        judged = []
+        for o in obs:
+            if o.get("hang"):
+                v.violation("grits %s does not terminate" % " ".join(o["args"]), o, {"kind": "hang"})
+                continue
+            c = o["cfg"]
+            tcres = (not c["ntc"]) and c["tc"] != "false"
+            if o["panic"]:
+                sig = {"kind": "panic", "typecheck_disabled": not tcres, "class": c["class"] if c["class"] != "illtyped_any" else "illtyped_panics"}
+                v.violation("grits %s dies with a Go panic trace: %s" % (" ".join(o["args"]), o["stderr"][:200]), o, sig)
+                if not (sig["typecheck_disabled"] and sig["class"] == "illtyped_panics"):
+                    continue
+            judged.append(o)
+        # conformance of every observation with the terminal state of Cli.tla
+        # (illtyped_any: the run-time behaviour of an arbitrary ill-typed program is unknown; only invocations that never reach execution are judged)
+        def reaches_exec(c):
+            tcres = (not c["ntc"]) and c["tc"] != "false"
+            exres = (not c["nex"]) and c["ex"] != "false"
+            return c["nargs"] == 1 and not tcres and exres
+        conf = [o for o in judged if not (o["cfg"]["class"] == "illtyped_any" and reaches_exec(o["cfg"]))]
+        for o in conf:
+            if o["cfg"]["class"] == "illtyped_any":
+                o["cfg"] = dict(o["cfg"], **{"class": "illtyped_stuck"})
+        rejected, accepted, cstates = [], 0, 0
+        todo = list(conf)
+        while todo:
+            tp = work.path("cli_obs_%d.json" % len(todo))
+            json.dump([{k: o[k] for k in ("cfg", "exit", "prints", "spawned", "diag", "panic")} for o in todo], open(tp, "w"))
+            r = vlib.tlc("Cli", CLI_CONF_CFG, env={"VERIF_TRACES": tp}, workers=4, timeout=600, work=work)
+            cstates += r["distinct"]
+            if r["ok"]:
+                accepted += len(todo)
+                todo = []
+            elif r["violated"]:
+                mm = re.findall(r"^/\\ oi = (\d+)", r["out"], re.M)
+                oi = int(mm[-1]) if mm else 1
+                bad = todo[oi - 1]
+                rejected.append((bad, r["violated"]))
+                todo = todo[:oi - 1] + todo[oi:]
+            else:
+                v.harness_errors.append("Cli conformance run failed: " + (r["error_text"] or "timeout")[:600])
+                todo = []
+        for bad, inv in rejected:
+            v.violation("grits %s (file class %s): exit=%s output=%s spawned=%s diagnostics=%s contradicts Cli.tla (%s)" %
+                        (" ".join(bad["args"]), bad["cfg"]["class"], bad["exit"], bad["prints"], bad["spawned"], bad["diag"], inv), bad,
+                        {"kind": "gatekeeping", "inv": inv})
+        # binding self-test: a flipped exit status must be rejected
+        st = {"ran": False}
+        good = [o for o in conf if o not in [b for b, _ in rejected]]
+        if good:
+            o = dict(good[0]); o = {k: o[k] for k in ("cfg", "exit", "prints", "spawned", "diag", "panic")}
+            o["exit"] = 1 - o["exit"] if o["exit"] in (0, 1) else 0
+            tp = work.path("cli_self.json")
+            json.dump([o], open(tp, "w"))
+            r = vlib.tlc("Cli", CLI_CONF_CFG, env={"VERIF_TRACES": tp}, workers=1, timeout=120, work=work)
+            st = {"ran": True, "corrupt_exit": "rejected" if r["violated"] else "accepted", "ok": bool(r["violated"])}
+            if not st["ok"]:
+                v.harness_errors.append("Cli conformance self-test: a flipped exit status was accepted")
+        cov = {"states": max(1, m["distinct"] + cstates), "transitions": max(1, m["generated"] + cstates),
+               "traces_validated_against_impl": accepted,
+               "samples": [{k: o.get(k) for k in ("args", "file", "exit", "prints", "spawned", "diag", "panic")} for o in obs[:4] + obs[-2:]],
+               "model_configurations": 15120 if m["ok"] else 0, "model_ok": m["ok"], "invocations": len(obs), "invocations_conforming": accepted,
+               "invocations_rejected": len(rejected), "panics_observed": sum(1 for o in obs if o.get("panic")),
+               "classes": {c: len(files[c]) for c in files}, "selftest": st,
+               "switch_combinations_covered": len({(o["cfg"]["tc"], o["cfg"]["ntc"], o["cfg"]["ex"], o["cfg"]["nex"], o["cfg"]["sync"], o["cfg"]["async"]) for o in obs})}
+        vlib.write_evidence("C18", "model_checking", cov, time.time() - t0, len(v.violations),
+                            ["program files: a fixed pool per class (thorough: plus generated derivations and mutants); the class of a file is assigned by construction",
+                             "observables: exit status, 'Spawning' line, '> ' lines, log.Fatal lines on stderr, Go panic trace on stderr"])
+    return v.finish()
+
+
+CHECKS["C18"] = c18
